@@ -1,8 +1,141 @@
 import Driver.Proto
+import AdaptaVerif.Model.Pins
+import AdaptaVerif.Model.Nudge
+import AdaptaVerif.Check.Attach
+import AdaptaVerif.Check.Nudge
+/-!
+Driver `driver_c10`: orthogonal nudging (see harness/c10.cpp for the line format).
+SPECFAIL (property clause violated, decided by the checkers of Check/Nudge.lean / Check/Attach.lean
+on the exact values the library returned):
+* displayRoute()'s first / last point differs from route()'s;
+* displayRoute() has more segments than route();
+* a checkpoint is no longer on displayRoute();
+* wide-enough corridor (W ≥ (m+1)·d, recorded by the generator): two connectors without a common
+  end point share a collinear stretch of positive length in displayRoute();
+* two connectors that shared a stretch before nudging (in simplify(route())) and do not share one
+  afterwards have parallel overlapping segments closer than `d/10 − 3/10000`
+  (`sepAfter_bounds`: ≥ d/10 after at most 9 reductions; `applied_separation`: minus 2·tol with
+  tol = 1e-4; 1e-4 more for the floating-point evaluation of `sepDist -= d/10`).
+Failures that are the documented effect of routing option nudgeOrthogonalSegmentsConnectedToShapes
+(final segments and checkpoint segments are nudged as well) form the class `opt-final-nudge`;
+like the other finding classes it is counted and only reported as SPECFAIL when named on the
+command line.
+-/
 namespace Driver.C10
+open Driver AdaptaVerif.Num AdaptaVerif.Model.Pins AdaptaVerif.Check.Attach AdaptaVerif.Check.Nudge
 
-def run (_args : List String) : IO UInt32 := do
-  IO.eprintln "driver mode c10: not implemented yet"
-  return 2
+def rat! (s : String) : Rat := (num? s).getD 0
+def pt! (l : Array String) (i : Nat) : P2 := ⟨rat! l[i]!, rat! l[i+1]!⟩
+def ptsFrom (l : Array String) (start n : Nat) : List P2 := (List.range n).map (fun i => pt! l (start + 2 * i))
+def showP (p : P2) : String := s!"({ratToString p.x},{ratToString p.y})"
+def lookup {α} (xs : List (Nat × α)) (k : Nat) : Option α := (xs.find? (·.1 == k)).map (·.2)
+
+structure St where
+  fails : List String := []
+  stats : List (String × Nat) := []
+  strict : List String := []
+
+def bump (s : St) (k : String) (n : Nat := 1) : St := { s with stats := bumpStats s.stats k n }
+
+def gated (s : St) (cls msg : String) : St :=
+  let s := bump s ("finding." ++ cls)
+  if s.strict.contains cls || s.strict.contains "all" then { s with fails := s!"[{cls}] {msg}" :: s.fails } else s
+
+def fail (s : St) (msg : String) : St := { s with fails := msg :: s.fails }
+
+def checkCase (strict : List String) (c : Case) : CaseResult := Id.run do
+  for l in c.lines do
+    if (l[0]! == "route" || l[0]! == "disp") && l.any (fun t => t == "nan" || t == "-nan" || t == "inf" || t == "-inf") then
+      return { verdict := .specfail s!"non-finite coordinate in: {" ".intercalate l.toList}" }
+  let cfg := (c.get1 "cfg").getD #[]
+  let d := rat! (cfg[0]?.getD "1")
+  let w := rat! (cfg[1]?.getD "0")
+  let m := nat! (cfg[2]?.getD "0")
+  let wide := cfg[3]?.getD "0" == "1"
+  let opts := nat! (cfg[5]?.getD "0")
+  let finalNudge := opts % 2 == 1
+  let mut s : St := { strict := strict }
+  s := bump s s!"d.{ratToString d}"
+  s := bump s s!"m.{m}"
+  for b in [0, 1, 2, 3, 4] do
+    if (opts / 2 ^ b) % 2 == 1 then s := bump s s!"opt.bit{b}"
+  -- a failed library assertion (thrown as vpsc::CriticalFailure): C15 territory, class lib-assert
+  for l in c.get "assert" do
+    s := gated (bump s (if (l[0]!.splitOn "freeSegmentID").length > 1 then "assert.freeSegmentID" else "assert.other"))
+      "lib-assert" s!"library assertion failed: {l[0]!}"
+  if !(c.get "assert").isEmpty then
+    return { verdict := match s.fails with | f :: _ => .specfail f | [] => .ok, nontrivial := false, stats := s.stats }
+  let routes := (c.get "route").toList.map (fun l => (nat! l[0]!, ptsFrom l 2 (nat! l[1]!)))
+  let disps := (c.get "disp").toList.map (fun l => (nat! l[0]!, ptsFrom l 2 (nat! l[1]!)))
+  let cpss := (c.get "cps").toList.map (fun l => (nat! l[0]!, ptsFrom l 2 (nat! l[1]!)))
+  if routes.length != m || disps.length != m then
+    return { verdict := .diverge s!"expected {m} routes, got {routes.length}/{disps.length}" }
+  -- the checkable wide-enough promise of the generator
+  if wide && w < ((m : Rat) + 1) * d then
+    return { verdict := .diverge "generator: case marked wide although W < (m+1)·d" }
+  let bound : Rat := d / 10 - 3 / 10000
+  -- per connector clauses
+  for (id, r) in routes do
+    let dr := (lookup disps id).getD []
+    match r.head?, r.getLast?, dr.head?, dr.getLast? with
+    | some a, some b, some a', some b' =>
+      if a != a' || b != b' then
+        let msg := s!"connector {id}: displayRoute() runs {showP a'} … {showP b'} but route() runs {showP a} … {showP b}: an end point was moved"
+        if finalNudge then s := gated s "opt-final-nudge" msg else s := fail s msg
+    | _, _, _, _ => s := fail s s!"connector {id}: empty route() or displayRoute()"
+    if segCount dr > segCount r then
+      s := fail s s!"connector {id}: displayRoute() has {segCount dr} segments, route() only {segCount r}"
+    s := bump s "segments.route.simplified" (segCount (simplify r))
+    s := bump s "segments.display" (segCount dr)
+    match lookup cpss id with
+    | some cps =>
+      s := bump s "checkpoints"
+      if !checkpointsInOrder r cps then
+        s := fail s s!"connector {id}: checkpoint {cps.map showP} not on route() {r.map showP}"
+      else if !checkpointsInOrder dr cps then
+        let msg := s!"connector {id}: checkpoint {cps.map showP} on route() but no longer on displayRoute() {dr.map showP}"
+        if finalNudge then s := gated s "opt-final-nudge" msg
+        else if !checkpointsInOrder (simplify r) cps then s := gated s "cp-disp" (msg ++ " (cut by simplify())")
+        else s := fail s msg
+    | none => pure ()
+  -- pairs
+  let mut sharedBefore := 0
+  for (i, ri) in routes do
+    for (j, rj) in routes do
+      if i < j then
+        let di := (lookup disps i).getD []
+        let dj := (lookup disps j).getD []
+        let before := sharedCollinearStretch (simplify ri) (simplify rj)
+        let after := sharedCollinearStretch di dj
+        if before then sharedBefore := sharedBefore + 1
+        if after then
+          s := bump s "pairs.shared.after"
+          if wide && !commonEndpoint ri rj then
+            let msg := s!"wide corridor (W={ratToString w} ≥ (m+1)·d={ratToString (((m : Rat) + 1) * d)}): connectors {i} and {j} share a collinear stretch in displayRoute(): {di.map showP} / {dj.map showP}"
+            if finalNudge then s := gated s "opt-final-nudge" msg else s := fail s msg
+        if before && !after then
+          s := bump s "pairs.separated"
+          match minParallelDist di dj with
+          | some dist =>
+            if dist < d - 1 / 1000 then s := bump s "pairs.separated.reduced"
+            if dist < bound then
+              let msg := s!"connectors {i} and {j} were separated but run only {ratToString dist} apart (< d/10 − 3e-4 with d={ratToString d}): {di.map showP} / {dj.map showP}"
+              -- class narrow-sep (corridor narrower than (m+1)·d only): the region is infeasible,
+              -- VPSC drops constraints as unsatisfiable, nudgeOrthogonalRoutes' `satisfied` test
+              -- looks at the fixed variables only and the "solution" is applied (1e-10 apart)
+              if wide then s := fail s msg else s := gated s "narrow-sep" msg
+          | none => s := bump s "pairs.separated.no-longer-parallel"
+  s := bump s "pairs.shared.before" sharedBefore
+  -- Router::existsOrthogonalSegmentOverlap() as a cross-check (statistics only)
+  let anyAfter := routes.any (fun (i, _) => routes.any (fun (j, _) => i < j &&
+    sharedCollinearStretch ((lookup disps i).getD []) ((lookup disps j).getD [])))
+  match c.get1 "overlap" with
+  | some l => s := bump s (if (l[0]! == "1") == anyAfter then "overlapflag.agree" else "overlapflag.differ")
+  | none => pure ()
+  match s.fails.reverse with
+  | f :: _ => return { verdict := .specfail f, nontrivial := sharedBefore > 0, stats := s.stats }
+  | [] => return { verdict := .ok, nontrivial := sharedBefore > 0, stats := s.stats }
+
+def run (args : List String) : IO UInt32 := runCases (checkCase args)
 
 end Driver.C10
